@@ -252,10 +252,14 @@ Definition dstep_ok (s s' : dst) : bool :=
 Definition dsteps_ok (c : dcfg) (l : list dst) : bool :=
   forallb (fun s => forallb (dstep_ok s) (dsuccs c s)) l.
 
-(* GraphDependency::reset *)
+(* GraphDependency::reset: what it clears is regenerated from the source; a conditional / early return in its body means
+   the fields are not cleared unconditionally, and the model then keeps them *)
+Definition reset_unconditional : bool := (reset_has_early_return =? 0) && (reset_has_condition =? 0).
 Definition dreset (s : dst) : dst :=
-  {| wn := 0; cready := false; tready := false; est := false; drdy := false; notified := 0; ctrig := 0; ttrig := 0;
-     bad := false; pa := A0; pcn := C0; pt := T0 |}.
+  {| wn := if reset_clears_count =? 1 then 0 else wn s; cready := false; tready := false;
+     est := if reset_unconditional && (reset_clears_established =? 1) then false else est s;
+     drdy := if reset_unconditional && (reset_clears_ready =? 1) then false else drdy s;
+     notified := 0; ctrig := 0; ttrig := 0; bad := false; pa := A0; pcn := C0; pt := T0 |}.
 
 (* observable outcome of a finished execution of DEP, as the driver prints it *)
 Definition doutcome (s : dst) : nat * bool * Z := (notified s, drdy s, wn s).
